@@ -87,12 +87,12 @@ package storage
 
 //@ func (*MemoryStore).SetClientAssertionJWT
 //@   requires store_wf(s) && held[addr(s.blacklistedJTIsMutex)] == 0 && (forall m2 V :: held[m2] != 0 ==> mrank(m2) < 2)
-//@   modifies held
+//@   modifies held, mapof(s.BlacklistedJTIs)
 //@   ensures [C19.locks-released] held == old(held)
 
 //@ func (*MemoryStore).CreateAuthorizeCodeSession
 //@   requires store_wf(s) && held[addr(s.authorizeCodesMutex)] == 0 && (forall m2 V :: held[m2] != 0 ==> mrank(m2) < 2)
-//@   modifies held
+//@   modifies held, mapof(s.AuthorizeCodes)
 //@   ensures [C19.locks-released] held == old(held)
 
 //@ func (*MemoryStore).GetAuthorizeCodeSession
@@ -102,12 +102,12 @@ package storage
 
 //@ func (*MemoryStore).InvalidateAuthorizeCodeSession
 //@   requires store_wf(s) && held[addr(s.authorizeCodesMutex)] == 0 && (forall m2 V :: held[m2] != 0 ==> mrank(m2) < 2)
-//@   modifies held
+//@   modifies held, mapof(s.AuthorizeCodes)
 //@   ensures [C19.locks-released] held == old(held)
 
 //@ func (*MemoryStore).CreatePKCERequestSession
 //@   requires store_wf(s) && held[addr(s.pkcesMutex)] == 0 && (forall m2 V :: held[m2] != 0 ==> mrank(m2) < 2)
-//@   modifies held
+//@   modifies held, mapof(s.PKCES)
 //@   ensures [C19.locks-released] held == old(held)
 
 //@ func (*MemoryStore).GetPKCERequestSession
@@ -117,12 +117,12 @@ package storage
 
 //@ func (*MemoryStore).DeletePKCERequestSession
 //@   requires store_wf(s) && held[addr(s.pkcesMutex)] == 0 && (forall m2 V :: held[m2] != 0 ==> mrank(m2) < 2)
-//@   modifies held
+//@   modifies held, mapof(s.PKCES)
 //@   ensures [C19.locks-released] held == old(held)
 
 //@ func (*MemoryStore).CreateAccessTokenSession
 //@   requires store_wf(s) && held[addr(s.accessTokenRequestIDsMutex)] == 0 && held[addr(s.accessTokensMutex)] == 0 && (forall m2 V :: held[m2] != 0 ==> mrank(m2) < 1)
-//@   modifies held
+//@   modifies held, mapof(s.AccessTokenRequestIDs), mapof(s.AccessTokens)
 //@   ensures [C19.locks-released] held == old(held)
 
 //@ func (*MemoryStore).GetAccessTokenSession
@@ -132,12 +132,12 @@ package storage
 
 //@ func (*MemoryStore).DeleteAccessTokenSession
 //@   requires store_wf(s) && held[addr(s.accessTokensMutex)] == 0 && (forall m2 V :: held[m2] != 0 ==> mrank(m2) < 2)
-//@   modifies held
+//@   modifies held, mapof(s.AccessTokens)
 //@   ensures [C19.locks-released] held == old(held)
 
 //@ func (*MemoryStore).CreateRefreshTokenSession
 //@   requires store_wf(s) && held[addr(s.refreshTokenRequestIDsMutex)] == 0 && held[addr(s.refreshTokensMutex)] == 0 && (forall m2 V :: held[m2] != 0 ==> mrank(m2) < 1)
-//@   modifies held
+//@   modifies held, mapof(s.RefreshTokenRequestIDs), mapof(s.RefreshTokens)
 //@   ensures [C19.locks-released] held == old(held)
 
 //@ func (*MemoryStore).GetRefreshTokenSession
@@ -147,7 +147,7 @@ package storage
 
 //@ func (*MemoryStore).DeleteRefreshTokenSession
 //@   requires store_wf(s) && held[addr(s.refreshTokensMutex)] == 0 && (forall m2 V :: held[m2] != 0 ==> mrank(m2) < 2)
-//@   modifies held
+//@   modifies held, mapof(s.RefreshTokens)
 //@   ensures [C19.locks-released] held == old(held)
 
 //@ func (*MemoryStore).Authenticate
@@ -157,12 +157,12 @@ package storage
 
 //@ func (*MemoryStore).RevokeRefreshToken
 //@   requires store_wf(s) && held[addr(s.refreshTokenRequestIDsMutex)] == 0 && held[addr(s.refreshTokensMutex)] == 0 && (forall m2 V :: held[m2] != 0 ==> mrank(m2) < 1)
-//@   modifies held
+//@   modifies held, mapof(s.RefreshTokens)
 //@   ensures [C19.locks-released] held == old(held)
 
 //@ func (*MemoryStore).RevokeAccessToken
 //@   requires store_wf(s) && held[addr(s.accessTokenRequestIDsMutex)] == 0 && held[addr(s.accessTokensMutex)] == 0 && (forall m2 V :: held[m2] != 0 ==> mrank(m2) < 1)
-//@   modifies held
+//@   modifies held, mapof(s.AccessTokens)
 //@   ensures [C19.locks-released] held == old(held)
 
 //@ func (*MemoryStore).GetPublicKey
@@ -182,12 +182,12 @@ package storage
 
 //@ func (*MemoryStore).MarkJWTUsedForTime
 //@   requires store_wf(s) && held[addr(s.blacklistedJTIsMutex)] == 0 && (forall m2 V :: held[m2] != 0 ==> mrank(m2) < 2)
-//@   modifies held
+//@   modifies held, mapof(s.BlacklistedJTIs)
 //@   ensures [C19.locks-released] held == old(held)
 
 //@ func (*MemoryStore).CreatePARSession
 //@   requires store_wf(s) && held[addr(s.parSessionsMutex)] == 0 && (forall m2 V :: held[m2] != 0 ==> mrank(m2) < 2)
-//@   modifies held
+//@   modifies held, mapof(s.PARSessions)
 //@   ensures [C19.locks-released] held == old(held)
 
 //@ func (*MemoryStore).GetPARSession
@@ -197,17 +197,17 @@ package storage
 
 //@ func (*MemoryStore).DeletePARSession
 //@   requires store_wf(s) && held[addr(s.parSessionsMutex)] == 0 && (forall m2 V :: held[m2] != 0 ==> mrank(m2) < 2)
-//@   modifies held
+//@   modifies held, mapof(s.PARSessions)
 //@   ensures [C19.locks-released] held == old(held)
 
 //@ func (*MemoryStore).RotateRefreshToken
 //@   requires store_wf(s) && held[addr(s.refreshTokenRequestIDsMutex)] == 0 && held[addr(s.refreshTokensMutex)] == 0 && held[addr(s.accessTokenRequestIDsMutex)] == 0 && held[addr(s.accessTokensMutex)] == 0 && (forall m2 V :: held[m2] != 0 ==> mrank(m2) < 1)
-//@   modifies held
+//@   modifies held, mapof(s.RefreshTokens), mapof(s.AccessTokens)
 //@   ensures [C19.locks-released] held == old(held)
 
 //@ func (*MemoryStore).CreateDeviceAuthSession
 //@   requires store_wf(s) && held[addr(s.deviceAuthsRequestIDsMutex)] == 0 && held[addr(s.deviceAuthsMutex)] == 0 && (forall m2 V :: held[m2] != 0 ==> mrank(m2) < 1)
-//@   modifies held
+//@   modifies held, mapof(s.DeviceAuths), mapof(s.DeviceCodesRequestIDs)
 //@   ensures [C19.locks-released] held == old(held)
 
 //@ func (*MemoryStore).GetDeviceCodeSession
@@ -217,12 +217,12 @@ package storage
 
 //@ func (*MemoryStore).InvalidateDeviceCodeSession
 //@   requires store_wf(s) && held[addr(s.deviceAuthsRequestIDsMutex)] == 0 && held[addr(s.deviceAuthsMutex)] == 0 && (forall m2 V :: held[m2] != 0 ==> mrank(m2) < 1)
-//@   modifies held
+//@   modifies held, mapof(s.DeviceAuths)
 //@   ensures [C19.locks-released] held == old(held)
 
 //@ func (*MemoryStore).CreateOpenIDConnectSession
 //@   requires store_wf(s) && held[addr(s.idSessionsMutex)] == 0 && (forall m2 V :: held[m2] != 0 ==> mrank(m2) < 2)
-//@   modifies held
+//@   modifies held, mapof(s.IDSessions)
 //@   ensures [C19.locks-released] held == old(held)
 
 //@ func (*MemoryStore).GetOpenIDConnectSession
@@ -232,5 +232,5 @@ package storage
 
 //@ func (*MemoryStore).DeleteOpenIDConnectSession
 //@   requires store_wf(s) && held[addr(s.idSessionsMutex)] == 0 && (forall m2 V :: held[m2] != 0 ==> mrank(m2) < 2)
-//@   modifies held
+//@   modifies held, mapof(s.IDSessions)
 //@   ensures [C19.locks-released] held == old(held)
